@@ -38,6 +38,7 @@ var vC15Rules = []vC15Rule{
 	{"HEAD!=\\.html$", false, "HEAD", true, "\\.html$"},
 }
 
+// a skip-auth rule exempts a request iff method and path regex match (negation included); query and fragment have no influence; preflight only for OPTIONS when enabled
 // verif: unwind=4 strlen=12 also=C01
 func vh_C15_routes() {
 	k := ndChoice("rule", len(vC15Rules))
